@@ -143,6 +143,28 @@ pub fn finalize_counts(rep: &mut Report) {
 }
 
 /// Scenario sets contributed to the universal monitors by properties built later.
-pub fn extra_universal_sets(_tier: Tier) -> Vec<universal::Entry> {
-    vec![]
+pub fn extra_universal_sets(tier: Tier) -> Vec<universal::Entry> {
+    let mut v = vec![];
+    // C15 bootstrap configurations in which one address is given to the builder both as a plain contact
+    // and as a router (the shared first-round id must still go to each address once), and a few without
+    // overlap for comparison
+    let (mut with, mut without) = (0usize, 0usize);
+    for cfg in c15::configs(tier, 1) {
+        let overlap = cfg.nodes.iter().any(|n| cfg.routers.contains(n));
+        let slot = if overlap { &mut with } else { &mut without };
+        if *slot >= if overlap { tier.pick(12, 40) } else { tier.pick(4, 20) } || cfg.horizon_ms > 120_000 {
+            continue;
+        }
+        *slot += 1;
+        let c = cfg.clone();
+        v.push(universal::Entry {
+            desc: serde_json::json!({"set": if overlap { "C15-node-and-router" } else { "C15-bootstrap" }, "cfg": c15::cfg_json(&cfg)}),
+            real_nodes: vec![c15::node_addr(cfg.v6)],
+            run: Box::new(move || {
+                let (sc, peers) = c15::build(&c);
+                crate::sim::run(&sc, peers, &mut crate::sim::DefaultChooser)
+            }),
+        });
+    }
+    v
 }
